@@ -144,8 +144,25 @@ def run(tier, seed):
         # (3) perturbed starts
         n_pert = 6 if tier == "quick" else 60
         kinds = collections.Counter()
+        # names the generator's own file handling mentions (T-gen of a dictionary: string literals that look like file names in
+        # file_utils/*.rs and main.rs).  A stale file whose name merely CONTAINS such a literal (prefix / suffix / infix) is still a stale
+        # file and must be swept; only a file with exactly that name may be kept on purpose.
+        name_literals = set()
+        for src_ in [os.path.join(REPO, "wow_message_parser/src/main.rs")] + sorted(
+                os.path.join(dp_, f_) for dp_, _, fn_ in os.walk(os.path.join(REPO, "wow_message_parser/src/file_utils")) for f_ in fn_ if f_.endswith(".rs")):
+            try:
+                for m_ in re.finditer(r'"([A-Za-z0-9_]+\.(?:rs|md|txt|json))"', open(src_).read()):
+                    name_literals.add(m_.group(1))
+            except OSError:
+                pass
+        name_literals = sorted(name_literals)
+        dict_names = []
+        for lit in name_literals:
+            stem, ext_ = os.path.splitext(lit)
+            dict_names += [(f"zzz_stale_{lit}", ext_), (f"{stem}_zzz_stale{ext_}", ext_), (f"zzz_{stem}_stale{ext_}", ext_)]
         # minimised past failures run first
-        CORPUS = [[("extra", "wowm_language/src/docs")], [("delete", "wow_message_parser/tests/wireshark/parser.txt")],
+        CORPUS = [[("extra-dict", None)],
+                  [("extra", "wowm_language/src/docs")], [("delete", "wow_message_parser/tests/wireshark/parser.txt")],
                   [("delete", "wow_world_messages/src/helper/vanilla/update_mask/impls.rs"), ("delete", "wow_world_messages/src/helper/tbc/opcode_to_name.rs")],
                   [("delete", "intermediate_representation.json"), ("extra", "wow_world_base/src/inner")]]
         for i in range(len(CORPUS) + n_pert):
@@ -156,6 +173,19 @@ def run(tier, seed):
             for kind, forced in plan:
                 f = forced if (forced and kind != "extra") else rng.choice(gen)
                 path = os.path.join(SCRATCH, f)
+                if kind == "extra-dict":
+                    # one stale file per (dictionary name, swept directory with files of that extension): all in ONE run
+                    for nm_, ext_ in dict_names:
+                        for d_ in SWEPT:
+                            subs = sorted({os.path.dirname(x) for x in gen if x.startswith(d_ + "/") and x.endswith(ext_)})
+                            if not subs:
+                                continue
+                            p_ = os.path.join(SCRATCH, subs[rng.below(len(subs))], nm_)
+                            if not os.path.exists(p_):
+                                open(p_, "w").write("// stale file that corresponds to no definition\n")
+                                ops.append(("extra", os.path.relpath(p_, SCRATCH)))
+                                kinds["extra-dict"] += 1
+                    continue
                 if kind == "extra":
                     d = forced or rng.choice(SWEPT + ["wowm_language/src/docs"])   # directories holding one file per definition
                     sub = rng.choice([x for x in gen if x.startswith(d + "/")])
